@@ -2,6 +2,8 @@
 CONSTANTS
   MaxSidC = @MAXSID@
   MaxWin = 8
+  MfsMin = 16384
+  MfsMax = 16777215
   CW0 = 4
   SW0 = 3
   OCW0 = 4
@@ -9,7 +11,7 @@ CONSTANTS
   MFS0 = 16384
   MAXS = @MAXS@
   SidsUsed = @SIDS@
-  CKinds = {"HEADERS", "DATA", "RST", "WU", "SETTINGS", "PING", "PRIORITY", "PINGACK", "UNKNOWN", "CONT", "PUSH"}
+  CKinds = @KINDS@
   Reqs = @REQS@
   Trailers = {"trailers", "trailerspseudo"}
   DataLens = {0, 1}
